@@ -68,26 +68,47 @@ fn extract_version_prefix(version: &str) -> &str {
     }
 }
 
-/// Point a package at the version text inside its value token.
+/// The range of a package narrowed to the version text inside its value token (byte offsets).
+///
+/// For an npm alias (`npm:name@^1.0.0`), a JSR specifier (`jsr:@scope/name@^1.0.0`) or a quoted
+/// `uses:` value the reported token is wider than the version. Returns `None` when the version
+/// text does not occur in the token (for example a PEP 440 specifier that was normalised while
+/// parsing). For a hash-pinned action the range is that of the hash.
+pub fn version_text_range(package: &PackageInfo, content: &str) -> Option<PackageInfo> {
+    let text = package.commit_hash.as_deref().unwrap_or(&package.version);
+    let token = content.get(package.start_offset..package.end_offset)?;
+    let shift = token.rfind(text)?;
+
+    let mut located = package.clone();
+    located.start_offset += shift;
+    located.column += shift;
+    located.end_offset = located.start_offset + text.len();
+    Some(located)
+}
+
+/// Point a package at the version text inside its value token, for code actions.
 ///
 /// A bump replaces `version.len()` characters starting at the reported column, so that range
-/// must hold exactly the version. For an npm alias (`npm:name@^1.0.0`) or a JSR specifier
-/// (`jsr:@scope/name@^1.0.0`) the reported token is the whole specifier: the version is located
-/// inside it. Returns `None` when the version text does not occur in the token (for example a
-/// PEP 440 specifier that was normalised while parsing), because no safe edit exists then.
-/// The column of the result is counted in UTF-16 code units, as the client counts it.
+/// must hold exactly the version; a package without such a range gets no action, because no
+/// safe edit exists. The column of the result is counted in UTF-16 code units, as the client
+/// counts cursor positions and edits (the parsers count bytes).
 pub fn locate_version_in_token(package: &PackageInfo, content: &str) -> Option<PackageInfo> {
-    let mut located = package.clone();
+    let mut located = version_text_range(package, content)?;
 
-    // Hash-pinned actions are rewritten as a whole (hash and comment)
-    if package.commit_hash.is_none() {
-        let token = content.get(package.start_offset..package.end_offset)?;
-        let shift = token.rfind(package.version.as_str())?;
-        located.start_offset += shift;
-        located.column += shift;
+    // A hash with a version comment is rewritten as one piece, from the hash to the end of the
+    // comment: that is only safe when nothing but the comment marker lies in between (a closing
+    // quote would be swallowed)
+    if let Some(ExtraInfo::GitHubActions {
+        comment_start_offset,
+        ..
+    }) = &located.extra_info
+    {
+        let between = content.get(located.end_offset..*comment_start_offset)?;
+        if !between.chars().all(|c| c == ' ' || c == '\t' || c == '#') {
+            return None;
+        }
     }
 
-    // Cursor positions and edits are exchanged in UTF-16 code units, the parsers count bytes
     if let Some((column, _)) = located.utf16_span(content) {
         located.column = column as usize;
     }
